@@ -839,6 +839,11 @@ impl Rasn {
             ASN1Value::Boolean(b) => Ok(b.to_token_stream()),
             ASN1Value::Integer(i) => Ok(Literal::i128_unsuffixed(*i).to_token_stream()),
             ASN1Value::String(s) => Ok(s.to_token_stream()),
+            ASN1Value::Real(r) if !r.is_finite() => Err(GeneratorError {
+                top_level_declaration: None,
+                details: "A REAL value beyond the range of a 64-bit float cannot be generated.".into(),
+                kind: crate::prelude::GeneratorErrorType::Unidentified,
+            }),
             ASN1Value::Real(r) => Ok(r.to_token_stream()),
             ASN1Value::BitStringNamedBits(_) => Err(GeneratorError {
                 top_level_declaration: None,
